@@ -73,6 +73,18 @@ CLAIMED['C14'] = dict(
          'abstract object identities (pointer<->integer conversions carry the identity), Z3 FP theory.',
     ref='§4 C14')
 
+CLAIMED['C07'] = dict(
+    text='Decides with Z3 over the real MIR of ChannelQueue (C07.K1): one send / receive / close / runnable_waiter step from an '
+         'arbitrary queue state satisfying the representation invariant (symbolic length <= symbolic capacity, any open/closed '
+         'state, waiter lists of <= 2 (quick) / 4 (thorough) entries): admitted sends append exactly the sent value at the tail, '
+         'receives remove exactly the head, rejected operations leave the queue unchanged, nothing is admitted after close and '
+         'buffered values survive close in order; a parked synchronous sender is never woken while its value is still queued. By '
+         'induction over the (cooperative, hence sequential) operation history this gives FIFO / exactly-once / capacity for '
+         'histories of any length. The VM side of the retry protocol (ip and depth restored on Full/Empty) is decided in C06.K1. '
+         'Blocking semantics that need the scheduler are C08 (not applicable).',
+    note='Trusted: rustc MIR printer, mirsym, VecDeque modelled as a logical queue, Ref<ChannelWaiter> as identities, Z3.',
+    ref='§4 C07')
+
 NOT_APPLICABLE = {
     'C08': 'global liveness of the fiber scheduler needs the running Vm (DESIGN.md §6); no bounded symbolic encoding of the real scheduler is within reach',
 }
